@@ -39,6 +39,8 @@ def image(svg, node, font_size):
     svg.stream.transform(e=x, f=y)
     base_url = node.get('{http://www.w3.org/XML/1998/namespace}base')
     url = node.get_href(base_url or svg.url)
+    if not url:
+        return
     image = svg.context.get_image_from_uri(url=url, forced_mime_type='image/*')
     if image is None:
         return
